@@ -1,7 +1,7 @@
 /-
   Lungo.Proofs.ConcFrame — frame facts of `step`: what a step of actor `a` leaves unchanged.
 -/
-import Lungo.Proofs.ConcInv
+import Lungo.Proofs.ConcInvDefs
 namespace Lungo.Conc
 
 macro "frame_tac" hs:ident fn:ident : tactic => `(tactic| (
